@@ -137,13 +137,13 @@ def after_commands(w):
     return out
 
 
-def reference_run(layout, prior, names="plain"):
+def reference_run(layout, prior, names="plain", buffered=False):
     """uninterrupted create with the injector counting: the protocol trace"""
     w = build(layout, prior, names)
     roots = LAYOUTS[layout]
     try:
         pre = {hid(r): hist_files(w, r) for r in roots}
-        with faults.Injector() as inj:
+        with faults.Injector(buffered=buffered) as inj:
             res = w.run(C.create, [w.cpath(()), "-h", "md5"])
         events = [classify_event(w, roots, e) for e in inj.events]
         order = []
@@ -160,7 +160,7 @@ def reference_run(layout, prior, names="plain"):
                 "wchain": len([e for e in events if e["h"] == h and e["k"] == "write" and e["f"] in ("chain", "tmpchain")]),
             })
         atomic = any(e["k"] == "replace" for e in events)
-        return {"events": events, "order": order, "hists": hists, "atomic": atomic, "exit": res["exit"], "n": len(events),
+        return {"events": events, "order": order, "hists": hists, "atomic": atomic, "exit": res["exit"], "n": len(events), "buffered": buffered,
                 "loadorder": [hid(r) for r in reversed(roots)]}
     finally:
         w.destroy()
@@ -174,7 +174,7 @@ def crash_case(args):
         pre = {hid(r): hist_files(w, r) for r in roots}
         crashed = False
         try:
-            with faults.Injector(at=k, mode=mode) as inj:
+            with faults.Injector(at=k, mode=mode, buffered=ref.get("buffered", False)) as inj:
                 w.run(C.create, [w.cpath(()), "-h", "md5"])
         except faults.Crash:
             crashed = True
@@ -185,7 +185,7 @@ def crash_case(args):
             h = dict(hr)
             h["obs"] = obs[hr["h"]]
             hists.append(h)
-        return {"tid": "crash-%s-%d-%s" % (layout, prior, names), "i": k * 3 + ["none", "partial", "full"].index(mode), "kind": "crash",
+        return {"tid": "crash-%s-%d-%s-%s" % (layout, prior, names, "buf" if ref.get("buffered") else "raw"), "i": k * 3 + ["none", "partial", "full"].index(mode), "kind": "crash", "buffered": bool(ref.get("buffered")),
                 "layout": layout, "prior": prior, "k": k, "mode": mode, "crashed": crashed, "events": ref["events"], "order": ref["order"],
                 "loadorder": ref["loadorder"], "atomic": ref["atomic"], "hists": hists, "after": after, "exit": after["info"]}
     finally:
